@@ -150,6 +150,19 @@ def make(targets, timeout=1500):
     return rc == 0, out
 
 
+def coqchk(vfile: str, timeout=1500):
+    """Independent re-check of the compiled property file and everything it depends on (coqchk), with the
+    axioms of every loaded library.  Returns (ok, axioms, tail of the output)."""
+    mod = "XV." + vfile[:-2].replace("/", ".")
+    rc, out = sh(["timeout", str(timeout), "coqchk", "-silent", "-o", "-Q", ".", "XV", mod], cwd=COQ,
+                 timeout=timeout + 30)
+    axioms = []
+    m = re.search(r"\* Axioms:(.*?)\n\s*\n", out, re.S)
+    if m:
+        axioms = [a.strip() for a in m.group(1).splitlines() if a.strip() and a.strip() != "<none>"]
+    return rc == 0, axioms, out[-600:]
+
+
 def print_assumptions(vfile: str):
     """Re-run coqc on a Properties file and parse every Print Assumptions block.
     Returns (ok, list of (theorem?, axioms list)), raw output."""
